@@ -30,8 +30,6 @@ def supported(tr):
         return "matching_type"
     if any(c.get("from_trade_handler") for c in tr.calls):
         return "strategy_acts_inside_trade_handler"        # the strategy sent or cancelled an order from inside a TRADE handler: the matching pass was re-entered
-    if S.get("trf"):
-        return "share_conversion"
     if not tr.rec.inputs or tr.rec.inputs[0]["k"] != "P":
         return "no_inputs"
     return None
@@ -216,6 +214,15 @@ def build_request(tr, ix, api_level=False):
             rows = minute_rows(ix, cfgk, it["dt"])
             body += ["M", str(len(rows))] + [x for r in rows for x in r] + ["R"]
             items.append({"k": "M"})
+        elif k == "S" and api_level and ix.S.get("trf"):
+            # share conversion at the settlement of the predecessor's last trading day (the model converts what it holds)
+            nxt8 = ix.next_day8(it["today"])
+            for pred, tdata in ix.S["trf"].items():
+                srec = ix.stock.get(pred)
+                if srec is not None and srec["delisted"] is not None and nxt8 >= B.d8(srec["delisted"]) and tdata["successor"] in ix.ids:
+                    body += ["V", str(ix.ids[pred]), str(ix.ids[tdata["successor"]]), f2b(float(tdata["share_conversion_ratio"]))]
+                    items.append({"k": "V"})
+            body.append("S")
         elif k in ("B", "A", "R", "T", "S"):
             body.append(k)
         elif k == "O":
@@ -278,7 +285,10 @@ def run_sync(ctx, corrs, tr, ix):
     if tr.exc is not None:
         ctx.stats["world_skipped:run_ended_by_exception"] += 1
         return
-    run_level(ctx, corrs, tr, ix, False)
+    if tr.S.get("trf"):
+        ctx.stats["world_runs_with_share_conversion(api_level_only)"] += 1
+    else:
+        run_level(ctx, corrs, tr, ix, False)
     if tr.cfg["sim"].get("signal"):
         ctx.stats["world_runs_signal_mode"] += 1
         return
